@@ -25,6 +25,9 @@ type ITCase struct {
 	Targets []int `json:"targets"`
 	Types   []int `json:"types"`
 	Senders []int `json:"senders"` // 0 = none, 1 = a foreign PID, 2 = the writer's own PID
+	// Dialling: the envelope arrives while the writer is still making its connection (registered, inbox
+	// running, no stream yet - a peer that is slow or down keeps it there for seconds)
+	Dialling bool `json:"dialling,omitempty"`
 }
 
 type syncStream struct {
@@ -61,7 +64,11 @@ func runInternalTargets(c ITCase) (labels []string, nt bool, err error) {
 	var pmu sync.Mutex
 	var panicked any
 	ss := &syncStream{got: make(chan struct{}, 64)}
-	w := remote.VerifNewRunningWriter(e, peer, ss, fakeConn{}, func(v any) { pmu.Lock(); panicked = v; pmu.Unlock() })
+	var first remote.DRPCRemote_ReceiveStream = ss
+	if c.Dialling {
+		first = nil
+	}
+	w := remote.VerifNewRunningWriter(e, peer, first, fakeConn{}, func(v any) { pmu.Lock(); panicked = v; pmu.Unlock() })
 	wpid := e.SpawnProc(w)
 	if wpid.ID != "stream/"+peer {
 		return nil, false, fmt.Errorf("harness: the writer is registered as %q", wpid.ID)
@@ -88,6 +95,11 @@ func runInternalTargets(c ITCase) (labels []string, nt bool, err error) {
 		return nil, false, fmt.Errorf("streamReader.Receive panicked: %v", p)
 	}
 	_ = rerr
+	if c.Dialling {
+		// the connection is made now (a message queued behind the envelope's; by the time the marker
+		// below has gone through, the envelope's messages have been through Invoke without a stream)
+		e.Send(wpid, remote.VerifConnectMsg{Stream: ss})
+	}
 	// barrier through the writer's inbox: a genuine delivery request queued behind whatever the
 	// envelope put there; when the fake stream has it, everything before it has been through Invoke
 	e.Send(wpid, remote.VerifDeliver(actor.NewPID(peer, "x/1"), nil, &remote.TestMessage{Data: []byte("marker")}))
@@ -133,11 +145,15 @@ func TestInternalTargets(t *testing.T) {
 			c.Types = append(c.Types, rapid.IntRange(0, 2).Draw(t, "ty"))
 			c.Senders = append(c.Senders, rapid.IntRange(0, 2).Draw(t, "sn"))
 		}
+		c.Dialling = rapid.Bool().Draw(t, "dialling")
 		st.Begin(c)
 		labels, nt, err := runInternalTargets(c)
 		if err != nil {
 			st.Fail(c, err)
 			t.Fatalf("%v", err)
+		}
+		if c.Dialling {
+			labels = append(labels, "writer-still-dialling")
 		}
 		st.Done(c, nt, labels...)
 	})
